@@ -38,7 +38,7 @@ MANDATORY = ["rhs:scalar", "rhs:full", "rhs:bcast", "spelling:put-copy", "idx:ma
 
 
 def budget(tier):
-    return {"quick": dict(examples=1200, shards=1), "thorough": dict(examples=12000, shards=16)}[tier]
+    return {"quick": dict(examples=2500, shards=1), "thorough": dict(examples=12000, shards=16)}[tier]
 
 
 RHS_BASE = {"f": 1000.25, "i": 1000, "b": None, "s": None}
